@@ -49,6 +49,10 @@ package subscriber
 // ... and it leaves the table in the critical section that decided to end it
 // (release 1 of m.mu in program order is the one of the not-found return, release 2 ends the critical section that found the session)
 //@   ensures lockedN(1, sessionID in m.sessions) ==> unlockedN(2, sessionID !in m.sessions)
+// whatever the locking structure: if the session is not in the table when the manager's mutex is
+// taken for the last time, this call releases nothing (a decision taken in an earlier critical
+// section is stale by then)
+//@   ensures !locked(sessionID in m.sessions) ==> relIPv4 == 0 && relIPv6 == 0 && termEvents == 0
 //@   sets termCalls = termCalls + 1
 
 //@ func NewManager
